@@ -8,10 +8,11 @@ import LhasaV.Driver.OpsList
 import LhasaV.Driver.OpsSpecLh1
 import LhasaV.Driver.OpsSpecLhNew
 import LhasaV.Driver.OpsSpecPm
+import LhasaV.Driver.OpsSpecHeader
 /-! `lhv`: one operation per input line, one canonical result line per operation. -/
 namespace LhasaV.Driver
 
-def dispatchers : List (List String → Option String) := [opCrc, opHeader, opDecoder, opReader, opSpec, opExtract, opList, opSpecLh1, opSpecLhNew, opSpecPm]
+def dispatchers : List (List String → Option String) := [opCrc, opHeader, opDecoder, opReader, opSpec, opExtract, opList, opSpecLh1, opSpecLhNew, opSpecPm, opSpecHeader]
 
 def runLine (line : String) : String :=
   let toks := (line.trimAscii.toString.splitOn " ").filter (· ≠ "")
